@@ -52,7 +52,11 @@ func txCases() []txCase {
 	var out []txCase
 	for _, entry := range []string{"Transact", "TransactCtx"} {
 		for _, be := range []bool{false, true} {
-			for _, stmts := range [][]bool{{}, {false}, {true}, {false, false}, {false, true}, {true, false}} {
+			stmtSets := [][]bool{{}, {false}, {true}, {false, false}, {false, true}, {true, false}}
+			if vrt.Thorough() {
+				stmtSets = append(stmtSets, []bool{true, true}, []bool{false, false, false}, []bool{false, false, true}, []bool{false, true, false}, []bool{true, false, false}, []bool{false, true, true}, []bool{true, true, true})
+			}
+			for _, stmts := range stmtSets {
 				for _, onErr := range []string{"return", "ignore"} {
 					for _, final := range []string{"nil", "err", "panic"} {
 						panicPos := []int{0}
